@@ -15,6 +15,14 @@ package main
 //	writeframe sync|async <fin> <op> <hex>
 //	flush sync|async
 //	close sync|async <code> <hexreason>
+//	defer                                      from here on the transport holds asynchronous writes back (no trace event)
+//	pump                                       the transport performs the writes it held back; reported as "flush async": its
+//	                                           result is the first error of the calls that were in flight, "other" if one of
+//	                                           their callbacks did not run exactly once
+//
+// Between defer and pump only write-type calls are executed (asynchronous ones, and blocking write/close once the stream has
+// left the active state: those are refused before the transport is touched); an asynchronous call whose write is held back
+// is reported as accepted ("err=nil" = no error so far) and "pending" counts the frames inside the transport as well.
 //
 // Observations ("<" lines): what the call returned (error class, frame or message), State(), Pending() and the frames the
 // client put on the transport during the call, recovered from the raw bytes by the parser below (independent of the
@@ -231,6 +239,12 @@ func wsFrameStr(f websocket.Frame) string {
 
 // ---- executing a script -------------------------------------------------------------------------
 
+// wsInflight: the callback of one asynchronous write-type call.
+type wsInflight struct {
+	calls int
+	err   error
+}
+
 func wsRun(script []string, w *bufio.Writer) {
 	if wsIoc == nil {
 		wsIoc = sonic.MustIO()
@@ -249,7 +263,17 @@ func wsRun(script []string, w *bufio.Writer) {
 		parsed  int // bytes of ms.out already reported
 		ctl     []string
 		garbage bool
+		// deferred window (defer ... pump)
+		deferred bool
+		inflight []*wsInflight
 	)
+	held := func() int {
+		if ms == nil || ms.pendingWrite == nil {
+			return 0
+		}
+		fr, _ := wsParseWire(ms.pendingWrite.b[ms.pendingWrite.done:])
+		return len(fr)
+	}
 	post := func() string {
 		frames, rest := wsParseWire(ms.out[parsed:])
 		parsed = len(ms.out) - len(rest)
@@ -270,7 +294,7 @@ func wsRun(script []string, w *bufio.Writer) {
 		if garbage {
 			ws_ += "+rsv"
 		}
-		return fmt.Sprintf("state=%s pending=%d wire=%s", wsState(ws.State()), ws.Pending(), ws_)
+		return fmt.Sprintf("state=%s pending=%d wire=%s", wsState(ws.State()), ws.Pending()+held(), ws_)
 	}
 	// complete an asynchronous read that found nothing on the transport: a script never blocks
 	settle := func(done *bool) bool {
@@ -283,11 +307,64 @@ func wsRun(script []string, w *bufio.Writer) {
 	}
 	for _, line := range script {
 		f := strings.Fields(line)
-		fmt.Fprintf(w, "! %s\n", line)
+		if len(f) == 0 || ws == nil && f[0] != "new" {
+			continue
+		}
+		async := len(f) > 1 && f[1] == "async"
+		switch {
+		case f[0] == "defer":
+			if !deferred {
+				fmt.Fprintf(w, "? defer\n")
+			}
+			deferred = true
+			ms.deferWrites = true
+			continue
+		case f[0] == "pump":
+			if !deferred {
+				continue
+			}
+			fmt.Fprintf(w, "! flush async\n")
+		case deferred && f[0] != "new":
+			writeType := f[0] == "write" || f[0] == "writeframe" || f[0] == "close" || f[0] == "flush"
+			if !writeType || !async && (f[0] == "flush" || ws.State() == websocket.StateActive) {
+				continue
+			}
+			fmt.Fprintf(w, "! %s\n", line)
+		default:
+			fmt.Fprintf(w, "! %s\n", line)
+		}
 		var out string
+		// result of an asynchronous write-type call
+		finish := func(fl *wsInflight) {
+			if fl.calls == 0 && deferred {
+				inflight = append(inflight, fl)
+				out = "call err=nil " + post()
+			} else if fl.calls == 0 {
+				out = "hang " + post()
+			} else {
+				out = fmt.Sprintf("call err=%s %s", wsErr(fl.err), post())
+			}
+		}
 		p := guard(func() {
-			async := len(f) > 1 && f[1] == "async"
 			switch f[0] {
+			case "pump":
+				deferred = false
+				ms.deferWrites = false
+				for i := 0; i < 64 && ms.pendingWrite != nil; i++ {
+					ms.pump()
+				}
+				res := "nil"
+				for _, fl := range inflight {
+					if fl.calls != 1 {
+						res = "other"
+						break
+					}
+					if fl.err != nil && res == "nil" {
+						res = wsErr(fl.err)
+					}
+				}
+				inflight = nil
+				out = fmt.Sprintf("call err=%s %s", res, post())
 			case "new":
 				var err error
 				ws, err = websocket.NewWebsocketStream(wsIoc, nil, websocket.RoleClient)
@@ -297,6 +374,8 @@ func wsRun(script []string, w *bufio.Writer) {
 				ms = newMemStream()
 				parsed = 0
 				garbage = false
+				deferred = false
+				inflight = nil
 				if err := ws.VerifAttach(ms); err != nil {
 					panic(err)
 				}
@@ -374,8 +453,10 @@ func wsRun(script []string, w *bufio.Writer) {
 				var err error
 				done := true
 				if async {
-					done = false
-					ws.AsyncWrite(unhx(f[3]), websocket.MessageType(atoi(f[2])), func(e error) { err, done = e, true })
+					fl := &wsInflight{}
+					ws.AsyncWrite(unhx(f[3]), websocket.MessageType(atoi(f[2])), func(e error) { fl.err = e; fl.calls++ })
+					finish(fl)
+					return
 				} else {
 					err = ws.Write(unhx(f[3]), websocket.MessageType(atoi(f[2])))
 				}
@@ -394,8 +475,10 @@ func wsRun(script []string, w *bufio.Writer) {
 				var err error
 				done := true
 				if async {
-					done = false
-					ws.AsyncWriteFrame(fr, func(e error) { err, done = e, true })
+					fl := &wsInflight{}
+					ws.AsyncWriteFrame(fr, func(e error) { fl.err = e; fl.calls++ })
+					finish(fl)
+					return
 				} else {
 					err = ws.WriteFrame(fr)
 				}
@@ -408,8 +491,10 @@ func wsRun(script []string, w *bufio.Writer) {
 				var err error
 				done := true
 				if async {
-					done = false
-					ws.AsyncFlush(func(e error) { err, done = e, true })
+					fl := &wsInflight{}
+					ws.AsyncFlush(func(e error) { fl.err = e; fl.calls++ })
+					finish(fl)
+					return
 				} else {
 					err = ws.Flush()
 				}
@@ -424,8 +509,10 @@ func wsRun(script []string, w *bufio.Writer) {
 				code := websocket.CloseCode(atoi(f[2]))
 				reason := string(unhx(f[3]))
 				if async {
-					done = false
-					ws.AsyncClose(code, reason, func(e error) { err, done = e, true })
+					fl := &wsInflight{}
+					ws.AsyncClose(code, reason, func(e error) { fl.err = e; fl.calls++ })
+					finish(fl)
+					return
 				} else {
 					err = ws.Close(code, reason)
 				}
